@@ -38,6 +38,12 @@ impl ResolvedCalendarFields {
         if partial_date.calendar.is_iso() {
             let month_code = resolve_iso_month(partial_date, overflow)?;
             let day = resolve_day(partial_date.day, resolve_type == ResolutionType::YearMonth)?;
+            // See `IsoDate::regulate`: such a year can never be part of a valid date.
+            if !(-271_821..=275_760).contains(&era_year.year) {
+                return Err(
+                    TemporalError::range().with_message("year is not within the ISO limits.")
+                );
+            }
             let day = if overflow == ArithmeticOverflow::Constrain {
                 constrain_iso_day(era_year.year, month_code.to_month_integer(), day)
             } else {
